@@ -301,6 +301,8 @@ class FnSplicer:
             self.segs.insert(pos, '\n    opens_invariants ' + spec['opens_invariants'] + '\n', tag + '/kw', order=order)
         if not has_body:
             return
+        if 'ref-pattern-deref' in (spec.get('rewrites') or []):
+            self._ref_pattern_deref(body_open, body_close)
         for ctor, rty in (spec.get('eta_expand') or {}).items():
             self._eta_expand(body_open, body_close, ctor, rty)
         if 'strip-async' in (spec.get('rewrites') or []):
@@ -426,6 +428,31 @@ class FnSplicer:
         for k in cspecs:
             if int(k) >= len(closures):
                 raise ExtractError('lost anchor: closure #%s of %s (found %d closures)' % (k, tag, len(closures)))
+
+    def _ref_pattern_deref(self, body_open, body_close):
+        """Rule 'ref-pattern-deref': `while let &PAT = EXPR {` / `if let &PAT = EXPR {` -> `... let PAT = *(EXPR) {`
+        (Verus has no reference patterns; the two forms are the same match on the same place, and the result
+        only compiles when every binding of PAT is Copy)."""
+        toks = self.src.toks
+        i = body_open + 1
+        while i < body_close:
+            if toks[i].kind == 'ident' and toks[i].text == 'let' and toks[i + 1].text == '&' and toks[i - 1].kind == 'ident' and toks[i - 1].text in ('while', 'if'):
+                j = i + 2
+                while not (toks[j].kind == 'punct' and toks[j].text == '='):
+                    if toks[j].text in OPEN:
+                        j = match_close(toks, j)
+                    j += 1
+                k = j + 1
+                while not (toks[k].kind == 'punct' and toks[k].text == '{'):
+                    if toks[k].text in ('(', '['):
+                        k = match_close(toks, k)
+                    k += 1
+                self.segs.rewrite(toks[i + 1].start, toks[i + 1].end, '', 'ref-pattern-deref')
+                self.segs.insert(toks[j + 1].start, '*(', 'ref-pattern-deref/open', order=0)
+                self.segs.insert(toks[k - 1].end, ')', 'ref-pattern-deref/close', order=0)
+                self.counts['ref-pattern-deref'] = self.counts.get('ref-pattern-deref', 0) + 1
+                i = k
+            i += 1
 
     def _eta_expand(self, body_open, body_close, ctor, rty):
         """Rule 'eta-expand-ctor': a tuple-variant constructor passed as a function value, `f(Path::Ctor)`,
